@@ -28,7 +28,8 @@ PROPS = {
     'C09': {
         'level': 'model_checking',
         'pkgs': ALLV,
-        'text': 'Get/Set accept exactly the specification metric abbreviations and values for strings of any length on every reachable object; reachable objects are well formed',
+        'reuse': ['C09_', 'C07_Set', 'C07_Zero'],
+        'text': 'Get/Set accept exactly the specification metric abbreviations and values for strings of any length on every reachable object; reachable objects are well formed: the zero value satisfies the reachability invariant (every Get legal and non-empty, object rebuilt by Set from its Gets) and every Set, successful or failed, preserves it (inductive step shared with C07), so no history reaches a spare code',
         'bounds': 'the whole finite domain for Get/Set (arbitrary-length strings, all reachable objects)',
         'solvers': {'quick': ['z3'], 'thorough': ['z3', 'z3new', 'cvc5']},
     },
@@ -104,10 +105,29 @@ PARSER_PARAMS = {
     'h20': {'quick': {'handler': 'plain', 'params': {'PARSE_N': 12, 'TAIL_N': 6}}, 'thorough': {'handler': 'plain', 'params': {'PARSE_N': 18, 'TAIL_N': 12}}},
     'h40': {'quick': {'handler': 'plain', 'params': {'PARSE_N': 20, 'TAIL_N': 6}}, 'thorough': {'handler': 'plain', 'params': {'PARSE_N': 30, 'TAIL_N': 12}}},
 }
+# element-structured inputs (harness structInput): one run per SHAPE; each decimal digit is the length of one
+# '/'-separated element after the canonical base part, every byte of an element arbitrary except '/'
+STRUCT_SHAPES = {
+    'h40': {'quick': [55, 345], 'thorough': [55, 345, 3444, 4445, 5555, 555555, 343345, 37, 3457]},
+    'h3[01]': {'quick': [555, 344555], 'thorough': [555, 344555, 444444, 555555, 345345345, 344444555544, 544544544544]},
+    'h20': {'quick': [344, 555, 54444], 'thorough': [344, 345, 354, 355, 444, 455, 545, 555, 54444, 55555, 65555, 64545, 34454444, 55565555, 45564545, 35465454]},
+}
+for _k, _v in STRUCT_SHAPES.items():
+    PARSER_PARAMS[_k + r'\.C\d\d_\w+Struct$'] = {t: {'variants': [{'SHAPE': x} for x in xs]} for t, xs in _v.items()}
+# single-edit inputs (harnesses *Mutated): the canonical base part (arbitrary values) with one byte replaced by an
+# arbitrary byte (MUT=0), one arbitrary byte inserted (MUT=1) or one byte deleted (MUT=2), at every position
+BASE_LEN = {'h20': 26, 'h3[01]': 44, 'h40': 63}
+for _k, _n in BASE_LEN.items():
+    _vars = [{'MUT': m, 'POS0': p0, 'CHUNK': 16} for m in (0, 1, 2) for p0 in range(0, _n + 1, 16)]
+    PARSER_PARAMS[_k + r'\.C\d\d_\w+Mutated$'] = {'handler': None, 'variants': _vars}
+    PARSER_PARAMS[_k + r'\.C\d\d_\w+Dropped$'] = {'handler': None}
 PARSER_BOUNDS = ('two input spaces per version, both decided completely by the solver: (a) every byte string of length <= PARSE_N; (b) "shaped" strings: the canonical base part '
                  '(header, mandatory metrics in specification order) with every VALUE an arbitrary byte other than \'/\', followed by an arbitrary byte string of length <= TAIL_N '
                  '(so that accepted vectors, optional metrics, repeated/unknown/misplaced elements and trailing garbage are all reached). quick: v2 12/6, v3.x 22/12, v4 20/6; '
-                 'thorough: v2 18/12, v3.x 30/18, v4 30/12. Longer strings and other shapes are outside the claim')
+                 'thorough: v2 18/12, v3.x 30/18, v4 30/12; (c) "element-structured" strings: the same base part followed by k elements of fixed lengths (one run per SHAPE, '
+                 'each digit an element length; every element byte arbitrary except \'/\'), which reaches optional parts of up to 12 elements: quick v2 344,555,54444; v3.x 555,344555; v4 55,345; '
+                 'thorough: see STRUCT_SHAPES in gosmt/props.py; (d) the base part with ONE mandatory element left out (any); (e) every single-byte edit of the base part '
+                 '(arbitrary values): any byte replaced by an arbitrary byte, an arbitrary byte inserted at any position, any byte deleted. Longer strings and other shapes are outside the claim')
 PROPS['C01'] = {
     'level': 'model_checking',
     'pkgs': ALLV,
@@ -147,12 +167,13 @@ PROPS['C12']['per_harness'] = {'h40': {'handler': 'fp_oracle'}, 'h20|h30|h31': {
 PROPS['C12']['bounds'] = 'none: all effective classes of v3.1 (3 scores), v2.0 and v3.0 (base, temporal) and all 15,116,544 effective classes of v4.0 (15 metrics)'
 PROPS['C13'] = {
     'level': 'model_checking',
-    'pkgs': ['hcross'],
+    'pkgs': ['hcross'] + ALLV,
     'text': 'no string is accepted by two versions: all four real parsers are executed symbolically on the same input; (a) every byte string up to PARSE_N, (b) for each version, every string with that version\'s header and canonical base part (arbitrary values) and an arbitrary tail is rejected by the three other parsers',
     'bounds': 'quick: (a) PARSE_N = 10, (b) tail <= 6; thorough: 16 / 12. The second half of the property (Vector() output) follows from (b) together with C08 (Vector() output starts with the version\'s header and canonical base part); not checked directly',
     'solvers': {'quick': ['z3'], 'thorough': ['z3', 'z3new']},
     'timeout': {'quick': 900, 'thorough': 3600},
-    'per_harness': {'.': {'quick': {'params': {'PARSE_N': 10, 'TAIL_N': 6}}, 'thorough': {'params': {'PARSE_N': 16, 'TAIL_N': 12}}}, 'OneVersion': {'handler': 'plain'}},
+    'per_harness': {'.': {'quick': {'params': {'PARSE_N': 10, 'TAIL_N': 6}}, 'thorough': {'params': {'PARSE_N': 16, 'TAIL_N': 12}}}, 'OneVersion': {'handler': 'plain'},
+                    'C13_VectorHeader': {'handler': 'groups_decide', 'ignore_kinds': ['growth']}},
     'technique': PROPS['C01']['technique'],
 }
 PROPS['C14'] = {
@@ -170,11 +191,13 @@ PROPS['C14'] = {
 PROPS['C08'] = {
     'level': 'model_checking',
     'pkgs': ALLV,
-    'text': '(a) Vector() equals the canonical serialisation of the object (reference serialiser written from the property text) on EVERY reachable object: both buffers are kept as sequences of conditional bytes and compared structurally, the conditions are proved pairwise equivalent by the solver - no length bound; (b) with C06 (values read back) and C01 this gives: parse-then-serialise is the canonical spelling of the input, for inputs within the parser bounds',
+    'text': '(a) Vector() equals the canonical serialisation of the object (reference serialiser written from the property text) on EVERY reachable object: both buffers are kept as sequences of conditional bytes and compared structurally, the conditions are proved pairwise equivalent by the solver - no length bound; (b) the object ParseVector returns holds exactly the values written in the string (the C06 lemmas on the shaped and element-structured inputs, run as part of this check); (a)+(b) give: parse-then-serialise is the canonical spelling of the input, for inputs within the parser bounds',
     'bounds': '(a) none (all reachable objects); (b) the parser bounds of C01/C06. Idempotence and "canonical input is a fixpoint" follow from (a)+(b) and are not asserted separately',
-    'solvers': {'quick': ['z3'], 'thorough': ['z3', 'z3new', 'cvc5']},
+    'solvers': {'quick': ['z3'], 'thorough': ['z3', 'z3new']},
     'technique': 'SMT over the symbolically executed Vector()/lenVec/append code: structural comparison of append-only buffers, condition equivalences discharged by z3',
-    'per_harness': {'.': {'handler': 'groups_decide', 'ignore_kinds': ['growth']}},
+    'reuse': ['C08_', 'C06_ValuesShaped', 'C06_ValuesStruct'],
+    'per_harness': dict(PARSER_PARAMS, **{'C08_Canonical': {'handler': 'groups_decide', 'ignore_kinds': ['growth']}}),
+    'timeout': {'quick': 900, 'thorough': 3600},
 }
 
 
@@ -208,7 +231,7 @@ PROPS['C18'] = {
 PROPS['C02'] = {
     'level': 'model_checking',
     'pkgs': ALLV,
-    'reuse': ['C08_Canonical', 'C01_AcceptShaped', 'C06_ValuesShaped', 'C07_Eq', 'C07_Set', 'C07_Zero'],
+    'reuse': ['C08_Canonical', 'C01_AcceptShaped', 'C01_AcceptStruct', 'C06_ValuesShaped', 'C06_ValuesStruct', 'C07_Eq', 'C07_Set', 'C07_Zero'],
     'text': 'decided as the conjunction of solver-checked lemmas on the real code: (a) Vector(c) is the canonical serialisation of c for EVERY reachable object (C08_Canonical, no bound); (b) ParseVector accepts the canonical strings within the shaped-input bound (C01_AcceptShaped); (c) the parsed object returns on every Get the value written in the string (C06_ValuesShaped); (d) objects with equal Get values are == and every object reachable through Set/zero value satisfies the invariant (C07). (a)-(d) give ParseVector(Vector(c)) == c with equal Gets. A counterexample of any lemma is replayed natively',
     'bounds': '(a), (d): none. (b), (c): canonical vectors whose optional part is at most TAIL_N bytes (quick: v2 6, v3 12, v4 6; thorough 12/18/12), i.e. objects with few defined optional metrics; objects with longer canonical spellings are outside the parser lemmas and hence outside the claim',
     'solvers': {'quick': ['z3'], 'thorough': ['z3', 'z3new']},
@@ -216,8 +239,10 @@ PROPS['C02'] = {
     'per_harness': dict(PARSER_PARAMS, **{'C08_Canonical': {'handler': 'groups_decide', 'ignore_kinds': ['growth']}}),
     'technique': PROPS['C01']['technique'] + '; composition of lemmas',
 }
+PROPS['C17']['per_harness'].update({k: v for k, v in PARSER_PARAMS.items() if 'Struct' in k})
 PROPS['C06']['per_harness'] = dict(PARSER_PARAMS, **{'C06_Values$': {'quick': {'skip': True}, 'thorough': {}}})
-PROPS['C14']['per_harness'] = dict(PARSER_PARAMS, **{'h20.C14_PoolIndependence$': {'quick': {'params': {'PARSE_N': 8}}, 'thorough': {'params': {'PARSE_N': 14}}}})
+PROPS['C14']['per_harness'] = dict(PARSER_PARAMS, **{'h20.C14_PoolIndependence$': {'quick': {'params': {'PARSE_N': 8}}, 'thorough': {'params': {'PARSE_N': 14}}},
+                                                     'C14_VectorStable': {'handler': 'groups_decide', 'ignore_kinds': ['growth']}})
 
 
 def harnesses(pid, tier, hf):
@@ -235,6 +260,15 @@ def harnesses(pid, tier, hf):
                     kvt = kv.get(tier, kv) if isinstance(kv, dict) and ('quick' in kv or 'thorough' in kv) else kv
                     h.update(kvt)
             if h.get('skip'):
+                continue
+            if h.get('variants'):
+                # one run per parameter variant (e.g. the SHAPE of the element-structured inputs)
+                for var in h['variants']:
+                    hv = dict(h)
+                    hv.pop('variants')
+                    hv['params'] = dict(h.get('params') or {}, **var)
+                    hv['variant'] = ','.join('%s=%s' % kv for kv in sorted(var.items()))
+                    out.append(hv)
                 continue
             out.append(h)
     return out
@@ -311,7 +345,8 @@ def finish(pid, tier, seed, results, exe, tmp, t0, log, write_evidence=True):
     unreach = []
     reached = set()
     for r in results:
-        hname = r['harness']
+        hfunc = r['harness']
+        hname = hfunc + ('#' + r['variant'] if r.get('variant') else '')
         if r['status'] != 'ok':
             inconclusive.append({'harness': hname, 'reason': r.get('error', r['status'])})
             if r.get('trace'):
@@ -330,17 +365,18 @@ def finish(pid, tier, seed, results, exe, tmp, t0, log, write_evidence=True):
             st = rec['status']
             if st == 'unsat':
                 n_unsat += 1
+                blabel = rec['label'].replace(' [reachability of the assertion]', '')
                 if rec['kind'] == 'assert' and rec.get('reachable') not in (None, 'sat'):
-                    unreach.append((r.get('pkg'), rec['label'], hname, rec.get('reachable')))
+                    unreach.append((r.get('pkg'), blabel, hname, rec.get('reachable')))
                 elif rec['kind'] == 'assert':
-                    reached.add((r.get('pkg'), rec['label']))
+                    reached.add((r.get('pkg'), blabel))
                 if len(samples) < 6 and rec['kind'] == 'assert':
                     samples.append({'harness': hname, 'obligation': rec['label'], 'kind': rec['kind'], 'verdict': 'unsat', 'by_solver': rec.get('by_solver'), 'reachability_witness': rec.get('reachable')})
             elif st == 'sat':
                 n_sat += 1
                 os.makedirs(rdir, exist_ok=True)
-                path = os.path.join(rdir, '%s_%d.json' % (hname.split('/')[-1].replace('.', '_'), rec['index']))
-                mj = model_json(hname, rec)
+                path = os.path.join(rdir, '%s_%d.json' % (re.sub(r'[^A-Za-z0-9_]', '_', hname.split('/')[-1]), rec['index']))
+                mj = model_json(hfunc, rec)
                 for pk, pv in (r.get('params') or {}).items():
                     mj['values']['param_' + pk] = pv
                     for pm in mj.get('pair', []):
@@ -353,7 +389,7 @@ def finish(pid, tier, seed, results, exe, tmp, t0, log, write_evidence=True):
                 except subprocess.TimeoutExpired:
                     rc, out = -1, 'replay timeout'
                 if rc == 3:
-                    kf = [k for k in known if known_match(k, pid, hname, rec, out)]
+                    kf = [k for k in known if known_match(k, pid, hfunc, rec, out)]
                     if kf:
                         known_hits.append((kf[0], path))
                     else:
@@ -364,7 +400,7 @@ def finish(pid, tier, seed, results, exe, tmp, t0, log, write_evidence=True):
                 n_unknown += 1
                 inconclusive.append({'harness': hname, 'reason': 'obligation "%s" (%s at %s): solver verdict %s %s' % (rec['label'], rec['kind'], rec['pos'], st, rec.get('by_solver'))})
     vacuous = []
-    for pkg, label, hname, st in unreach:
+    for pkg, label, hname, st in sorted(set(unreach)):
         if (pkg, label) in reached:
             vacuous.append({'harness': hname, 'assertion': label, 'note': 'not reachable in this input space; reached in another harness of the same package'})
         else:
@@ -396,7 +432,7 @@ def finish(pid, tier, seed, results, exe, tmp, t0, log, write_evidence=True):
                 'samples': samples or [{'note': 'no assertion discharged'}],
                 'explanation': cfg['text'],
                 'bounds': cfg.get('bounds', ''),
-                'harnesses': [{'harness': r['harness'], 'status': r['status'], 'obligations': len(r.get('results', [])),
+                'harnesses': [{'harness': r['harness'], 'variant': r.get('variant'), 'params': r.get('params'), 'status': r['status'], 'obligations': len(r.get('results', [])),
                                'unsat': sum(1 for x in r.get('results', []) if x['status'] == 'unsat'),
                                'exec_s': r.get('exec_s'), 'solver_s': r.get('solver_time'), 'dag_nodes': r.get('nodes'),
                                'ssa_stats': r.get('stats'), 'inputs': r.get('inputs'), 'note': r.get('note'), 'tabulation': r.get('tabulation')} for r in results],
@@ -416,8 +452,9 @@ def finish(pid, tier, seed, results, exe, tmp, t0, log, write_evidence=True):
             'wall_s': round(wall, 2),
             'violations': len(violations),
         }
-        os.makedirs(os.path.join(VERIF, 'evidence'), exist_ok=True)
-        with open(os.path.join(VERIF, 'evidence', pid + '.json'), 'w') as f:
+        evdir = os.environ.get('VERIF_EVIDENCE_DIR') or os.path.join(VERIF, 'evidence')
+        os.makedirs(evdir, exist_ok=True)
+        with open(os.path.join(evdir, pid + '.json'), 'w') as f:
             json.dump(ev, f, indent=1, sort_keys=True)
     log('%s tier=%s: %d obligations, %d unsat, %d sat (%d reproduced, %d known), %d unknown, %d inconclusive notes, %.1fs' %
         (pid, tier, n_ob, n_unsat, n_sat, len(violations) + len(known_hits), len(known_hits), n_unknown, len(inconclusive), wall))
